@@ -22,6 +22,8 @@ def _word(rng, alphabet, lo, hi):
 def mnemonic(rng, inner_blanks=True, nonascii=True):
     for _ in range(50):
         cls = rng.random()
+        if cls < 0.02:
+            return rng.choice(["MNEM", "mnem", "Mnem", "_RUN", "__x__"])      # legend word / names that look private: ordinary mnemonics
         if cls < 0.5:
             s = _word(rng, LETTERS, 1, 5) + _word(rng, DIGITS, 0, 2)
         elif cls < 0.7:
@@ -58,7 +60,7 @@ def unit(rng, interior=True):
             u = ""
         elif cls < 0.6:
             u = rng.choice(["M", "FT", "m", "gAPI", "US/F", "OHMM", "ohm.m", "K/M3", "%", "V/V", "degC", "g/cm3", "lbf", "hh:mm",
-                            "1:100", "mm/dd/yy", "0.1in", "1000lbf", "us/ft", "API", "m3/m3", "B/E", "DEG", "psi.a"])
+                            "1:100", "mm/dd/yy", "0.1in", "1000lbf", "us/ft", "API", "m3/m3", "B/E", "DEG", "psi.a", "UNIT", "unit"])
         elif cls < 0.85:
             u = _word(rng, LETTERS + DIGITS + UNIT_PUNCT, 1, 7)
         else:
@@ -75,7 +77,8 @@ def text(rng, lo=0, hi=24, colons=False, periods=True, double_dots=True):
     elif cls < 0.35:
         s = rng.choice(["ANY OIL COMPANY INC", "WILDCAT", "12-34-12-34W5M", "13/05/2015", "1670.000", "-999.25", "35.5", "GEL CHEM",
                         "O'Brien \"A\" #7", "100 123 456", "(RT)", "[note]", "x=1; y=2", "Bottom Hole Temperature", "15_9", "1,5",
-                        "0.25", "+12", "2.0", "NO", "1e3", "a.b.c", "Ünïcödé wéll", "深度 unit", "1000 lbf", "7"])
+                        "0.25", "+12", "2.0", "NO", "1e3", "a.b.c", "Ünïcödé wéll", "深度 unit", "1000 lbf", "7",
+                        "12-34-12-34W5      NE/4", "LOGSOFT  REL 7", "a         b   c"])
     elif cls < 0.75:
         s = " ".join(_word(rng, LETTERS + DIGITS, 1, 8) for _ in range(rng.randint(1, 4)))
     else:
